@@ -68,8 +68,18 @@ func (r v2Runner) CheckUpkeep(_ context.Context, _ bool, keys ...ocr2keepers.Upk
 
 type v2Logs struct{ s *v2Sites }
 
-func (f v2Logs) PerformLogs(context.Context) ([]ocr2keepers.PerformLog, error) {
+// v2LogDelay: how long the log provider takes to answer (a slow database); set by the mid-poll cases
+var v2LogDelay time.Duration
+
+func (f v2Logs) PerformLogs(ctx context.Context) ([]ocr2keepers.PerformLog, error) {
 	f.s.logs.hit("v2 LogProvider.PerformLogs")
+	if v2LogDelay > 0 {
+		select {
+		case <-time.After(v2LogDelay):
+		case <-ctx.Done():
+			return nil, ctx.Err()
+		}
+	}
 	return nil, nil
 }
 func (f v2Logs) StaleReportLogs(context.Context) ([]ocr2keepers.StaleReportLog, error) { return nil, nil }
@@ -235,6 +245,15 @@ func v2Cases(t *testing.T, run func(env []string, test string) (string, error)) 
 	for _, ms := range []int{0, 1, 500, 1000, 1001, 5000, 30000, 30001} {
 		o := &v2Obs{Name: fmt.Sprintf("v2-close-at-%dms", ms)}
 		runV2(t, o, "", time.Duration(ms)*time.Millisecond)
+		judgeV2(o)
+		out = append(out, o)
+	}
+	for _, ms := range []int{1200, 2300, 5600} {
+		// the log provider takes 700 ms per call (polls start every second): Close arrives while a poll is inside it
+		o := &v2Obs{Name: fmt.Sprintf("v2-close-mid-poll-at-%dms", ms)}
+		v2LogDelay = 700 * time.Millisecond
+		runV2(t, o, "", time.Duration(ms)*time.Millisecond)
+		v2LogDelay = 0
 		judgeV2(o)
 		out = append(out, o)
 	}
